@@ -69,11 +69,10 @@ def bitSeq (zero one : List Nat) : Nat → Nat → List Nat
 def byteTimings (zero one : List Nat) (v : Nat) : List Nat := bitSeq zero one v 8
 
 /-- The durations emitted by the table path (no zero-length bit pulse):
-all eight bits of every byte but the last, and the first
-`(len(bt) * used_bits) // 8` *pulses* of the last byte's table entry. -/
+all eight bits of every byte but the last (`b_timings[b]`), then the last byte bit by bit:
+`b = data[-1]; for j in range(min(used_bits, 8)): (one if b & 0x80 else zero); b *= 2`. -/
 def fastSeq (zero one : List Nat) (ub : Nat) (data : List Nat) : List Nat :=
-  let bt := byteTimings zero one (data.getLastD 0)
-  (data.dropLast.flatMap (byteTimings zero one)) ++ bt.take (bt.length * ub / 8)
+  (data.dropLast.flatMap (byteTimings zero one)) ++ bitSeq zero one (data.getLastD 0) (min ub 8)
 
 /-- The durations visited by the merge loop (some bit pulse has length 0):
 `for k, b in enumerate(data, 1): for j in range(8 if k < len(data) else used_bits): …` -/
